@@ -24,7 +24,8 @@ RULE = (
     "auto context at a random cadence, (b) n_final_samples none vs smaller vs larger, (c) the simulator replaces the "
     "rng.choice answer of one resampling step by a different valid draw: ratios and temperatures up to and including that "
     "step must not change, (d) a run crashed at sampled likelihood calls and resumed. evaluations = processes; non-trivial = "
-    "family with >= 2 iterations; distinct_nontrivial counts distinct (schedule mode, target, namespace, dtype, twin kind) tuples."
+    "family with >= 2 iterations; distinct_nontrivial counts distinct (schedule mode, target, namespace, dtype, twin kind) tuples. "
+    "A few cases run BlackJAXSMC (stand-in random-walk blackjax, jax-traceable model) and apply the same history and evidence oracles."
 )
 ASSUMPTIONS = ["stub kernel/proposal/model", "twin runs share every seed; only the named option differs"]
 COMPONENTS = runs.COMPONENTS
@@ -38,12 +39,18 @@ def gen_cases(seed, tier):
     for i in range(n):
         ss = stream_seeds(seed, ID, i)
         out.append({"run_index": i, "scenario_seed": ss["scenario"], "fault_seed": ss["faults"], "tier": tier})
-    return out
+    from . import c05_blackjax
+
+    return c05_blackjax.cases(ID, seed, tier) + out
 
 
 def scenario_of(case):
     if "scenario" in case:
         return case["scenario"]
+    if case.get("kind") == "blackjax":
+        from . import c05_blackjax
+
+        return c05_blackjax.scenario(case)
     quick = case["tier"] == "quick"
     scn = draw_smc_scenario(
         case["scenario_seed"],
@@ -71,6 +78,10 @@ def _cmp(V, ref_sum, got_sum, what, where, keys=KEYS, upto=None):
 
 
 def run_case(case, workdir):
+    if case.get("kind") == "blackjax":
+        from . import c05_blackjax
+
+        return c05_blackjax.judge(case, workdir, scenario_of(case), want=('c08',))
     scn = scenario_of(case)
     rng = rng_from(case["fault_seed"])
     where = O.scn_where(scn)
